@@ -412,6 +412,7 @@ func one(args []string) {
 	idx := fs.Int("index", 0, "")
 	caseTimeout := fs.Float64("casetimeout", 60, "")
 	knownPath := fs.String("known", "known_findings.json", "")
+	dump := fs.Bool("dump", false, "print the event log of every incarnation of the case")
 	fs.Parse(args)
 	installKnown(loadKnown(*knownPath))
 	ch := harness.Checks[*prop]
@@ -428,9 +429,16 @@ func one(args []string) {
 	})
 	t := simrt.NewTape(mix(*seed, *idx))
 	c := harness.NewCase(*prop, *tier, t)
+	c.Trace = *dump
 	v := ch.Run(c)
 	b, _ := json.Marshal(map[string]any{"status": v.Status, "clause": v.Clause, "sig": v.Sig, "detail": v.Detail})
 	fmt.Println(string(b))
+	if *dump {
+		fmt.Println(c.Sample)
+		for _, l := range c.TraceLog {
+			fmt.Println(l)
+		}
+	}
 }
 
 // export writes one generated case (IR + reference result) as JSON for the
